@@ -1,6 +1,7 @@
 """Common post-processing of a correspondence run into the result dict check_main expects."""
 import json
 from common import stable_hash
+from corr import correspond
 
 
 def finish(pid, r, streams, rule, clause_prefix, nontrivial, extra=None):
@@ -25,7 +26,7 @@ def finish(pid, r, streams, rule, clause_prefix, nontrivial, extra=None):
             continue
         seen_keys.add(f["clause"])
         impl_failures.append({"key": f["clause"], "clause": f["clause"], "ops": f["ops"]})
-    # a mismatch in a stream where an oracle also failed is explained by that failure
+    # a mismatch in a stream where an oracle (of any property) also failed is explained by that failure
     bad_streams = {f["stream"] for f in r["findings"]}
     mism = []
     for m in r["mismatches"]:
@@ -37,13 +38,38 @@ def finish(pid, r, streams, rule, clause_prefix, nontrivial, extra=None):
         for op in ops:
             k = op["op"] + ("." + op["f"] if "f" in op else "")
             dist[k] = dist.get(k, 0) + 1
+    outcomes = {}
+    for o in r.get("outcomes", []):
+        outcomes[o] = outcomes.get(o, 0) + 1
     res = {
         "evaluations": r["evaluations"], "distinct_nontrivial": nt, "rule": rule,
-        "samples": [streams[0], streams[len(streams) // 2], streams[-1]],
+        "samples": [streams[0], streams[len(streams) // 2], streams[-1]] if streams else [],
         "traces_validated": r["streams"] - len({m["stream"] for m in r["mismatches"]}),
         "mismatches": mism, "impl_failures": impl_failures,
-        "distribution": {"ops": dist, "streams": len(streams)},
+        "distribution": {"ops": dist, "streams": len(streams), "outcomes": outcomes},
     }
     if extra:
         res.update(extra)
     return res
+
+
+class StreamProperty:
+    """a property decided by op streams + oracle hooks"""
+
+    def __init__(self, pid, hooks, streams_fn, rule, prefixes, nontrivial, extra=None):
+        self.pid, self.hooks, self.streams_fn, self.rule = pid, hooks, streams_fn, rule
+        self.prefixes, self.nontrivial, self.extra = prefixes, nontrivial, extra or {}
+
+    def run(self, tier, seed, escalate=False):
+        if escalate:
+            tier = "thorough"
+        ss = self.streams_fn(tier, seed)
+        r = correspond(ss, hooks=[h() for h in self.hooks])
+        return finish(self.pid, r, ss, self.rule, self.prefixes, self.nontrivial, self.extra)
+
+    def replay(self, rp):
+        ops = rp.get("ops") or rp["theorem_or_stream"][0]["ops"]
+        r = correspond([ops], hooks=[h() for h in self.hooks])
+        fs = [f["clause"] for f in r["findings"] if f["clause"].startswith(tuple(self.prefixes))]
+        return {"fails": bool(r["mismatches"] or fs), "mismatches": [m["diffs"] for m in r["mismatches"]],
+                "findings": fs}
